@@ -5,6 +5,7 @@ PROP = {
     "required_theorems": [
         "Verif.Properties.C48.event_shape",
         "Verif.Properties.C48.destroy_defaults",
+        "Verif.Properties.C48.inherited_events_order",
     ],
     "streams": [
         {"name": "events", "driver": "drv_events",
@@ -17,16 +18,18 @@ PROP = {
                   "failing): every payload handed to the host is an instance of a declared event — its type id, exactly "
                   "its declared fields in declaration order, every value conforming to the declared field type "
                   "(event_shape; emit statements, emit conditions and destruction events alike); destroying a resource "
-                  "emits the events of its nested resource first and then its own ResourceDestroyed payload whose values "
-                  "are the default-argument expressions evaluated on the resource as it was before destruction "
-                  "(destroy_defaults). Tied to /repo by the stream `events`: generated programs declaring events with "
+                  "emits the events of its nested resource first, then the ResourceDestroyed payloads inherited from its "
+                  "interfaces, one per effective conformance in distinctConformances order (inherited_events_order), "
+                  "then its own ResourceDestroyed payload whose values are the default-argument expressions evaluated "
+                  "on the resource as it was before destruction (destroy_defaults). Tied to /repo by the stream `events`: generated programs declaring events with "
                   "parameters of Int/UInt8/Int64/Bool/String/Address, optionals and arrays of them (field names "
                   "not in alphabetical order), emitting them from statements, pre-/post-conditions and (nested) resource "
-                  "destruction after field updates, on interpreter, VM and VM+peephole; the recording host's payloads "
+                  "destruction after field updates, resources conforming to DAGs of resource interfaces with their own "
+                  "ResourceDestroyed events, on interpreter, VM and VM+peephole; the recording host's payloads "
                   "(type id, field names in payload order, exported values), log and outcome vs the model; direct "
                   "oracle on the Go payloads alone: declared type id and declared field names in declaration order. "
-                  "The calculus leaves out: events of contracts / imported events, ResourceDestroyed inherited from "
-                  "interfaces, attachments' destroy events (base), resource collections, dictionary / path / struct / "
+                  "The calculus leaves out: events of contracts / imported events, attachments' destroy "
+                  "events (base), resource collections, dictionary / path / struct / "
                   "enum-typed parameters, dictionary-index default arguments.",
     "level_note": "proof (core calculus) + CC. Trusted: Lean kernel; the hand-written calculus (validated by the stream); "
                   "the generator's two renderers in harness/internal/l3sx; payload rendering harness/internal/l3run "
